@@ -30,6 +30,7 @@ type verifBuilder struct {
 	next   rune
 	ids    map[rune]string
 	expect map[string]*verifExpect
+	narrow bool
 }
 
 func verifRGB(s string) []int {
@@ -88,13 +89,17 @@ func (b *verifBuilder) mark(ids []string, bools []int, fg string, bg string) {
 }
 
 func (b *verifBuilder) expr(depth int) (string, []string) {
-	if depth == 0 || b.rng.Intn(4) == 0 {
+	if depth == 0 || (!b.narrow && b.rng.Intn(4) == 0) {
 		return b.leaf()
 	}
-	/* concatenation of 1..3 children, wrapped in one style function */
+	/* concatenation of 1..3 children (narrow: exactly one, so that nestings get deep), wrapped in one style function */
 	text := ""
 	ids := []string{}
-	for k := 1 + b.rng.Intn(3); k > 0; k-- {
+	children := 1 + b.rng.Intn(3)
+	if b.narrow {
+		children = 1
+	}
+	for k := children; k > 0; k-- {
 		t, i := b.expr(depth - 1)
 		text += t
 		ids = append(ids, i...)
@@ -179,6 +184,7 @@ func TestVerifStyle(t *testing.T) {
 	var in struct {
 		Random int `json:"random"`
 		Depth  int `json:"depth"`
+		Deep   int `json:"deep"`
 	}
 	verifkit.In(&in)
 	out := verifkit.Out()
@@ -189,7 +195,13 @@ func TestVerifStyle(t *testing.T) {
 		var text string
 		ops := []string{}
 		panicked, what := verifkit.Try(func() {
-			text, _ = b.expr(1 + rng.Intn(in.Depth))
+			if in.Deep > in.Depth && i%5 == 4 {
+				/* seven to `deep` style functions around one run of text */
+				b.narrow = true
+				text, _ = b.expr(7 + rng.Intn(in.Deep-6))
+			} else {
+				text, _ = b.expr(1 + rng.Intn(in.Depth))
+			}
 			for k := rng.Intn(4); k > 0; k-- {
 				var op string
 				text, op = b.layout(text)
